@@ -491,6 +491,10 @@ PROP.LEVEL_TEXT = (
     "invariants over all executions (any number of requests/operations/suspensions, every list of scheduling choices): "
     "return_after and once for deploy-only AND for deploy+undeploy request sets on one eager, non-wrapper, never-failing "
     "deployment (C26_*_deploy_only_partial, C26_once_deploy_undeploy_partial, C26_return_after_deploy_undeploy_partial). "
+    "Also unbounded: the lazy FutureConnector fragment (any number of deploy/use requests on one lazy deployment whose "
+    "inner deploy may suspend and may fail): inner deploy at most once, use returns only after it succeeded, after a "
+    "failure every use raises and nobody stays blocked on deploy_event (C26_lazy_once_return_after, C26_lazy_fail_wakes; "
+    "FutureConnector's own protocol, not the manager-level events_map, for which C26_fail_wakes_refuted stands). "
     "BOUNDED: every "
     "multiset of <=4 deploy/undeploy requests on one eager deployment (return_after, once) and 651 sequential-teardown "
     "request sets on an eager chain of depth 4 (wrap_order, once, return_after), every interleaving, by a verified "
